@@ -1417,7 +1417,7 @@ func locksCmd(repo string, _ []string) (string, error) {
 		fmt.Fprintf(&sb, "Definition %s : list (string * list (op * N)) := [\n", name)
 		first := true
 		for _, r := range roots {
-			if lkLoadRoots[r.f.name] != load {
+			if r.f.hook != load {
 				continue
 			}
 			keys := make([]string, len(r.paths))
@@ -1444,6 +1444,8 @@ func locksCmd(repo string, _ []string) (string, error) {
 	}
 	sb.WriteString("(* execution paths of every root outside the construction/loading phase *)\n")
 	emitPaths("gen_run_paths", false)
+	sb.WriteString("(* paths of the roots declared in instrumentation files (//go:build verif): not part of the shipped code *)\n")
+	emitPaths("gen_hook_paths", true)
 	sort.Strings(loadRootNames)
 	sb.WriteString("(* construction/loading roots (not walked: the API contract excludes them from running concurrently with Run) *)\nDefinition gen_load_roots : list string := [")
 	for i, n := range loadRootNames {
@@ -1461,7 +1463,7 @@ func locksCmd(repo string, _ []string) (string, error) {
 	}
 	runSite := map[site]bool{}
 	for _, r := range roots {
-		if lkLoadRoots[r.f.name] {
+		if lkLoadRoots[r.f.name] || r.f.hook {
 			continue
 		}
 		for _, q := range r.paths {
@@ -1517,10 +1519,16 @@ func locksCmd(repo string, _ []string) (string, error) {
 	}
 	sort.Strings(esc)
 	loadFuncs := loadOnly
+	hookFuncs := map[string]bool{}
+	for _, f := range t.funcs {
+		if f.hook {
+			hookFuncs[f.name] = true
+		}
+	}
 	firstEsc := true
 	for _, k := range esc {
 		parts := strings.SplitN(k, "\x00", 2)
-		if loadFuncs[parts[0]] {
+		if loadFuncs[parts[0]] || hookFuncs[parts[0]] {
 			continue
 		}
 		if !firstEsc {
